@@ -239,3 +239,198 @@ theorem unflattenAux_sound :
 
 end PyTree
 end Pytask
+
+namespace Pytask
+namespace PyTree
+variable {α β γ : Type}
+
+/-! ### paths and positions -/
+
+mutual
+theorem length_paths : ∀ t : T α, (paths t).length = (leaves t).length
+  | .leaf a => by simp [paths, leaves]
+  | .list xs => by simp [paths, leaves, length_pathsL 0 xs]
+  | .tuple xs => by simp [paths, leaves, length_pathsL 0 xs]
+  | .dict kvs => by simp [paths, leaves, length_pathsD kvs]
+theorem length_pathsL (i : Nat) : ∀ xs : List (T α), (pathsL i xs).length = (leavesL xs).length
+  | [] => by simp [pathsL, leavesL]
+  | t :: ts => by simp [pathsL, leavesL, length_paths t, length_pathsL (i + 1) ts]
+theorem length_pathsD : ∀ kvs : List (Key × T α), (pathsD kvs).length = (leavesD kvs).length
+  | [] => by simp [pathsD, leavesD]
+  | (k, t) :: kvs => by simp [pathsD, leavesD, length_paths t, length_pathsD kvs]
+end
+
+theorem Key.lt_irrefl (k : Key) : k.lt k = false := by
+  cases k with
+  | int i => simp [Key.lt]
+  | str s => simp [Key.lt, String.lt_irrefl]
+
+theorem keysSorted_nodup : ∀ ks : List Key, keysSorted ks = true → ks.Nodup
+  | [], _ => List.nodup_nil
+  | a :: rest, h => by
+    simp only [keysSorted, Bool.and_eq_true, List.all_eq_true] at h
+    refine List.nodup_cons.2 ⟨?_, keysSorted_nodup rest h.2⟩
+    intro hmem
+    have := h.1 a hmem
+    simp [Key.lt_irrefl] at this
+
+theorem lookupD_mem {k : Key} {c : T α} : ∀ {kvs : List (Key × T α)}, lookupD k kvs = some c → k ∈ kvs.map (·.1)
+  | [], h => by simp [lookupD] at h
+  | (k', t) :: kvs, h => by
+    simp only [lookupD] at h
+    by_cases hk : k' = k
+    · simp [hk]
+    · simp only [hk, ↓reduceIte] at h
+      simp [lookupD_mem h]
+
+/-- the subtree found at a position, stated without committing to list or tuple. -/
+def childAt (xs : List (T α)) (j : Nat) : Option (T α) := xs[j]?
+
+theorem at_list (xs : List (T α)) (j : Nat) (p : Path) (c : T α) (h : xs[j]? = some c) :
+    at? (.list xs) (.idx j :: p) = at? c p := by simp [at?, h]
+theorem at_tuple (xs : List (T α)) (j : Nat) (p : Path) (c : T α) (h : xs[j]? = some c) :
+    at? (.tuple xs) (.idx j :: p) = at? c p := by simp [at?, h]
+theorem at_dict (kvs : List (Key × T α)) (k : Key) (p : Path) (c : T α) (h : lookupD k kvs = some c) :
+    at? (.dict kvs) (.key k :: p) = at? c p := by simp [at?, h]
+theorem at_nil (t : T α) : at? t [] = some t := by cases t <;> simp [at?]
+
+theorem mem_zip_append {A B : Type} {l1 l2 : List A} {r1 r2 : List B} (h : l1.length = r1.length) {x : A × B} :
+    x ∈ (l1 ++ l2).zip (r1 ++ r2) ↔ x ∈ l1.zip r1 ∨ x ∈ l2.zip r2 := by
+  rw [List.zip_append h, List.mem_append]
+
+theorem mem_zip_map_left {A A' B : Type} (f : A → A') {l : List A} {r : List B} {x : A' × B} :
+    x ∈ (l.map f).zip r ↔ ∃ a, (a, x.2) ∈ l.zip r ∧ x.1 = f a := by
+  rw [List.zip_map_left, List.mem_map]
+  constructor
+  · rintro ⟨⟨a, b⟩, h, rfl⟩; exact ⟨a, h, rfl⟩
+  · rintro ⟨a, h, hx⟩; exact ⟨(a, x.2), h, by cases x; simp_all⟩
+
+/-- every leaf sits at the position `paths` reports for it. -/
+theorem paths_at_aux :
+    (∀ t : T α, WF t = true → ∀ p a, (p, a) ∈ (paths t).zip (leaves t) → at? t p = some (.leaf a)) ∧
+    (∀ xs : List (T α), WFL xs = true → ∀ i p a, (p, a) ∈ (pathsL i xs).zip (leavesL xs) →
+        ∃ j p' c, p = .idx (i + j) :: p' ∧ xs[j]? = some c ∧ at? c p' = some (.leaf a)) ∧
+    (∀ kvs : List (Key × T α), WFD kvs = true → (kvs.map (·.1)).Nodup → ∀ p a, (p, a) ∈ (pathsD kvs).zip (leavesD kvs) →
+        ∃ k p' c, p = .key k :: p' ∧ lookupD k kvs = some c ∧ at? c p' = some (.leaf a)) := by
+  apply T.ind3
+  · intro a _ p b h
+    simp [paths, leaves] at h
+    obtain ⟨rfl, rfl⟩ := h
+    simp [at?]
+  · intro xs ih hwf p a h
+    simp only [WF] at hwf
+    simp only [paths, leaves] at h
+    obtain ⟨j, p', c, rfl, hc, hat⟩ := ih hwf 0 p a h
+    simp only [Nat.zero_add]
+    rw [at_list xs j p' c hc]; exact hat
+  · intro xs ih hwf p a h
+    simp only [WF] at hwf
+    simp only [paths, leaves] at h
+    obtain ⟨j, p', c, rfl, hc, hat⟩ := ih hwf 0 p a h
+    simp only [Nat.zero_add]
+    rw [at_tuple xs j p' c hc]; exact hat
+  · intro kvs ih hwf p a h
+    simp only [WF, Bool.and_eq_true] at hwf
+    simp only [paths, leaves] at h
+    obtain ⟨k, p', c, rfl, hc, hat⟩ := ih hwf.2 (keysSorted_nodup _ hwf.1) p a h
+    rw [at_dict kvs k p' c hc]; exact hat
+  · intro _ i p a h
+    simp [pathsL, leavesL] at h
+  · intro t ts ih1 ih2 hwf i p a h
+    simp only [WFL, Bool.and_eq_true] at hwf
+    simp only [pathsL, leavesL] at h
+    rw [mem_zip_append (by simp [length_paths])] at h
+    rcases h with h | h
+    · rw [mem_zip_map_left] at h
+      obtain ⟨p0, h0, hp⟩ := h
+      exact ⟨0, p0, t, by simpa using hp, by simp, ih1 hwf.1 p0 a h0⟩
+    · obtain ⟨j, p', c, rfl, hc, hat⟩ := ih2 hwf.2 (i + 1) p a h
+      exact ⟨j + 1, p', c, by simp [Nat.add_assoc, Nat.add_comm 1 j], by simpa using hc, hat⟩
+  · intro _ _ p a h
+    simp [pathsD, leavesD] at h
+  · intro k t kvs ih1 ih2 hwf hnd p a h
+    simp only [WFD, Bool.and_eq_true] at hwf
+    simp only [List.map_cons, List.nodup_cons] at hnd
+    simp only [pathsD, leavesD] at h
+    rw [mem_zip_append (by simp [length_paths])] at h
+    rcases h with h | h
+    · rw [mem_zip_map_left] at h
+      obtain ⟨p0, h0, hp⟩ := h
+      exact ⟨k, p0, t, by simpa using hp, by simp [lookupD], ih1 hwf.1 p0 a h0⟩
+    · obtain ⟨k', p', c, rfl, hc, hat⟩ := ih2 hwf.2 hnd.2 p a h
+      refine ⟨k', p', c, rfl, ?_, hat⟩
+      have hne : k ≠ k' := by
+        intro heq; subst heq; exact hnd.1 (lookupD_mem hc)
+      simp [lookupD, hne, hc]
+
+/-! ### tree_map_with_path -/
+
+mutual
+theorem mapWithPath_const (g : α → β) : ∀ t : T α, mapWithPath (fun _ a => g a) t = map g t
+  | .leaf a => by simp [mapWithPath, map]
+  | .list xs => by simp [mapWithPath, map, mapWithPathL_const g 0 xs]
+  | .tuple xs => by simp [mapWithPath, map, mapWithPathL_const g 0 xs]
+  | .dict kvs => by simp [mapWithPath, map, mapWithPathD_const g kvs]
+theorem mapWithPathL_const (g : α → β) (i : Nat) : ∀ xs : List (T α), mapWithPathL (fun _ a => g a) i xs = mapL g xs
+  | [] => by simp [mapWithPathL, mapL]
+  | t :: ts => by simp [mapWithPathL, mapL, mapWithPath_const g t, mapWithPathL_const g (i + 1) ts]
+theorem mapWithPathD_const (g : α → β) : ∀ kvs : List (Key × T α), mapWithPathD (fun _ a => g a) kvs = mapD g kvs
+  | [] => by simp [mapWithPathD, mapD]
+  | (k, t) :: kvs => by simp [mapWithPathD, mapD, mapWithPath_const g t, mapWithPathD_const g kvs]
+end
+
+mutual
+theorem leaves_mapWithPath : ∀ (t : T α) (f : Path → α → β),
+    leaves (mapWithPath f t) = List.zipWith f (paths t) (leaves t)
+  | .leaf a, f => by simp [mapWithPath, leaves, paths]
+  | .list xs, f => by simp [mapWithPath, leaves, paths, leavesL_mapWithPathL xs f 0]
+  | .tuple xs, f => by simp [mapWithPath, leaves, paths, leavesL_mapWithPathL xs f 0]
+  | .dict kvs, f => by simp [mapWithPath, leaves, paths, leavesD_mapWithPathD kvs f]
+theorem leavesL_mapWithPathL : ∀ (xs : List (T α)) (f : Path → α → β) (i : Nat),
+    leavesL (mapWithPathL f i xs) = List.zipWith f (pathsL i xs) (leavesL xs)
+  | [], f, i => by simp [mapWithPathL, leavesL, pathsL]
+  | t :: ts, f, i => by
+    simp only [mapWithPathL, leavesL, pathsL]
+    rw [List.zipWith_append (by simp [length_paths]), leaves_mapWithPath t, leavesL_mapWithPathL ts f (i + 1),
+      List.zipWith_map_left]
+theorem leavesD_mapWithPathD : ∀ (kvs : List (Key × T α)) (f : Path → α → β),
+    leavesD (mapWithPathD f kvs) = List.zipWith f (pathsD kvs) (leavesD kvs)
+  | [], f => by simp [mapWithPathD, leavesD, pathsD]
+  | (k, t) :: kvs, f => by
+    simp only [mapWithPathD, leavesD, pathsD]
+    rw [List.zipWith_append (by simp [length_paths]), leaves_mapWithPath t, leavesD_mapWithPathD kvs f,
+      List.zipWith_map_left]
+end
+
+mutual
+theorem struct_mapWithPath : ∀ (t : T α) (f : Path → α → β), struct (mapWithPath f t) = struct t
+  | .leaf a, f => by simp [mapWithPath, struct, map]
+  | .list xs, f => by
+    have := structL_mapWithPathL xs f 0
+    simp [mapWithPath, struct, map, this]
+  | .tuple xs, f => by
+    have := structL_mapWithPathL xs f 0
+    simp [mapWithPath, struct, map, this]
+  | .dict kvs, f => by
+    have := structD_mapWithPathD kvs f
+    simp [mapWithPath, struct, map, this]
+theorem structL_mapWithPathL : ∀ (xs : List (T α)) (f : Path → α → β) (i : Nat),
+    mapL (fun _ => ()) (mapWithPathL f i xs) = mapL (fun _ => ()) xs
+  | [], f, i => by simp [mapWithPathL, mapL]
+  | t :: ts, f, i => by
+    have h1 := struct_mapWithPath t (fun p => f (Step.idx i :: p))
+    have h2 := structL_mapWithPathL ts f (i + 1)
+    simp only [struct] at h1
+    simp [mapWithPathL, mapL, h1, h2]
+theorem structD_mapWithPathD : ∀ (kvs : List (Key × T α)) (f : Path → α → β),
+    mapD (fun _ => ()) (mapWithPathD f kvs) = mapD (fun _ => ()) kvs
+  | [], f => by simp [mapWithPathD, mapD]
+  | (k, t) :: kvs, f => by
+    have h1 := struct_mapWithPath t (fun p => f (Step.key k :: p))
+    have h2 := structD_mapWithPathD kvs f
+    simp only [struct] at h1
+    simp [mapWithPathD, mapD, h1, h2]
+end
+
+end PyTree
+end Pytask
